@@ -203,6 +203,9 @@ class SymArray(_ND):
 
     def astype(self, dtype, order="K", casting="unsafe", subok=True, copy=True):
         dt = _np.dtype(dtype)
+        if dt.kind in "US":
+            # only used for messages / repr
+            return _np.array([repr(x) for x in self.plain.reshape(-1)], dtype=object).reshape(self.shape).astype(str)
         out = _np.empty(self.shape, dtype=object)
         p = self.plain
         for idx in _np.ndindex(*self.shape):
